@@ -186,6 +186,49 @@ def check_trace_against_labelling(trace, certs):
     return None, checked
 
 
+CALL_LIKE = {"call", "call_self", "call_object", "call_lib", "mutate", "ret", "ret_mod", "module_entry", "load_self_export", "export_special", "make_object"}
+
+
+def check_trace_edges(trace, dump, opname):
+    """every step the interpreter REALLY took inside one function is an edge of that function's code: after the
+    instruction at ip (not a call / return, which hand control to other code) comes ip+1, or the target its jump names.
+    A jump that lands anywhere else is reported whatever the emitted code looks like.  -> (message or None, edges checked)"""
+    code_of = {}
+    for f, fns in dump.items():
+        for name, code in fns.items():
+            code_of["%s#%s" % (f, name)] = code
+    checked = 0
+    prev = None
+    for rec in trace:
+        fn, ip = rec[0], rec[1]
+        if prev is not None and prev[0] == fn and fn in code_of:
+            code = code_of[fn]
+            pip = prev[1]
+            if pip < len(code):
+                op, args = code[pip]
+                name = opname.get(op, "?")
+                if name not in CALL_LIKE and not name.startswith("call"):
+                    try:
+                        if name in ("if_stmt", "while_loop"):
+                            succ = {pip + 1, pip + int(args[0])}
+                        elif name in ("jmp", "jmp_pop"):
+                            succ = {pip + int(args[0])}
+                        elif name == "store_skip":
+                            succ = {pip + 1, pip + int(args[2])}
+                        elif name == "jmp_not_nil":
+                            succ = {pip + 1, pip + int(args[0])}
+                        else:
+                            succ = {pip + 1}
+                    except (ValueError, IndexError):
+                        succ = None
+                    # a function may call itself through a value: the callee's first record has ip 0
+                    if succ is not None and ip not in succ and ip != 0:
+                        return "%s: after instruction %d (%s %s) the interpreter executed instruction %d; the code allows %s" % (fn, pip, name, " ".join(args), ip, sorted(succ)), checked
+                    checked += 1
+        prev = rec
+    return None, checked
+
+
 # ---- instructions complain about the operand stack / the frames they find with these words: no compiled program may
 # ever make the interpreter say one of them (whatever else the program does)
 SHAPE_COMPLAINT = re.compile(r"can only store a single item|requires a stack size of|requires only 2 items|requires one item on the local|requires two items in the local|"
@@ -219,6 +262,24 @@ def opassign_operand_programs():
                             continue
                         src = pre + "from 0 to 1 {\n  if n == 3 {\n" + "".join("    " + l + "\n" for l in body.split("\n")[:-1]) + "  }\n}\n"
                     out.append({"name": "opassign %s %s %s (%s)" % (tgt, op, rhs, where), "files": {"main.ms": src}, "entry": "main.ms", "kind": "catalogue", "expect": [str(val)]})
+    return out
+
+
+def same_name_functions_projects():
+    """several files whose functions have the SAME compiler-given names (`__fn0`, `__module__`, `K::m`) and jumps at the same
+    instruction indexes with different offsets, all run in one process; each function is run on both branch outcomes"""
+    def fn_text(export, a, b, pad):
+        body = "".join("    print \"pad %d\"\n" % i for i in range(pad))
+        return ("%sdescribe%s = fn(n: int) -> str {\n  if n > 10 {\n%s    return \"%s\"\n  } else {\n    print \"small\"\n    return \"%s\"\n  }\n}\n"
+                % ("export " if export else "", ": fn(int) -> str" if export else "", body, a, b))
+    out = []
+    for pads in ((0, 3), (3, 0), (1, 1), (2, 5)):
+        lib = "print \"lib init\"\n" + fn_text(True, "lib big", "lib small", pads[1]) + "k = 0\nwhile k < 2 {\n  k = k + 1\n  if k == 1 {\n    continue\n  }\n  print \"lib loop \" + k\n}\n"
+        main = ("import lib\n" + fn_text(False, "main big", "main small", pads[0]) + "print describe(50)\nprint lib.describe(50)\nprint describe(5)\nprint lib.describe(5)\n"
+                "j = 0\nwhile j < 3 {\n  j = j + 1\n  if j == 2 {\n    continue\n  }\n  print \"main loop \" + j\n}\nprint lib.describe(11)\nprint describe(11)\n")
+        exp = (["lib init", "lib loop 2"] + ["pad %d" % i for i in range(pads[0])] + ["main big"] + ["pad %d" % i for i in range(pads[1])] + ["lib big", "small", "main small", "small", "lib small",
+               "main loop 1", "main loop 3"] + ["pad %d" % i for i in range(pads[1])] + ["lib big"] + ["pad %d" % i for i in range(pads[0])] + ["main big"])
+        out.append({"name": "same-named functions in two files, pads %d/%d" % pads, "files": {"main.ms": main, "lib.ms": lib}, "entry": "main.ms", "kind": "catalogue", "expect": exp})
     return out
 
 
@@ -258,6 +319,7 @@ def run(ctx):
         p["kind"] = "corpus"
         projs.append(p)
     projs += opassign_operand_programs()
+    projs += same_name_functions_projects()
     # "all generated programs of the other properties": their fixed catalogues (sources only; their own checks judge the output)
     from . import c07, c15, c17
     others = [c[2] for c in c07.capture_position_cases()] + [c[1] for c in c07.MODIFY_ALIAS_CASES + c07.CLOSURE_FLAG_CASES + c07.OWNER_WRITE_CASES] + [c[2] for c in c07.SELF_CAPTURE_CASES]
@@ -276,6 +338,7 @@ def run(ctx):
             if out["certs"] is not None:
                 msg, n = check_trace_against_labelling(real["trace"], out["certs"])
                 out["trace_msg"], out["trace_checked"] = msg, n
+            out["edge_msg"], out["edges_checked"] = check_trace_edges(real["trace"], out["dump"], opname)
             if proj["kind"] != "corpus" and len(real["trace"]) <= 2500:
                 entry = proj["entry"][:-3] + ".mmm#__module__"
                 model = vmtie.run_model(drv, real["dump"], entry)
@@ -289,7 +352,7 @@ def run(ctx):
 
     results = programs.pmap(one, projs)
     n_fn = n_cert = n_ext = n_rej = n_prog = 0
-    t2_agree = trace_checked = 0
+    t2_agree = trace_checked = edges_checked = 0
     distinct = set()
     for r in results:
         proj = r["proj"]
@@ -346,6 +409,10 @@ def run(ctx):
                        {"project": {k: v for k, v in proj.items() if k != "tree"}, "detail": r["trace_msg"],
                         "correspondence": "labelling (Verify/Check.v) vs trace hook H1"}, found_input=False)
         trace_checked += r["trace_checked"]
+        edges_checked += r.get("edges_checked") or 0
+        if r.get("edge_msg"):
+            ctx.report("executed-edge-not-in-code", "running %s: %s" % (proj["name"], r["edge_msg"]),
+                       {"project": {k: v for k, v in proj.items() if k != "tree"}, "detail": r["edge_msg"], "how": "mscript run <entry> -q with the trace hook H1; compare successive records with the dumped code (hook H3)"})
         if "STACK MISMATCH" in r.get("stderr", ""):
             ctx.report("stack-mismatch", "program %s ended normally with a non-empty call stack" % proj["name"],
                        {"project": {k: v for k, v in proj.items() if k != "tree"}, "stderr": r["stderr"]})
@@ -371,6 +438,7 @@ def run(ctx):
     ctx.cov["exhaustive"] = True
     ctx.cov["traces_validated_against_impl"] = t2_agree
     ctx.cov["trace_records_matching_labelling"] = trace_checked
+    ctx.cov["executed_edges_found_in_the_code"] = edges_checked
     ctx.sample({"skeleton_program": projs[3]["files"]["main.ms"][:600]})
     ctx.cov["trusted_base"] = ["Coq 8.16.1 kernel; no axioms (Print Assumptions: closed under the global context)",
                                "the labelling inference (Verify/Check.v infer) is unverified: a wrong labelling can only make the checker reject",
